@@ -316,6 +316,8 @@ theorem Rel_mkNode (f : Fields) (ks rs : List Tree) (h : All2 Rel (sortBy leftmo
   · rw [mkNode, leafNums_node, leafNums_node]
     exact (All2.flatMap_perm leafNums leafNums (fun _ _ h => h.2) h).trans
       ((sortBy_perm leftmost ks).flatMap_right leafNums)
+/-! ### unfolding the in-order oracle -/
+
 theorem inorderK_eq : ∀ ks : List Tree, inorderK ks = ks.map fun t => (leftmost t, inorderAux t)
   | [] => by simp [inorderK]
   | t :: ts => by simp [inorderK, inorderK_eq ts]
@@ -588,5 +590,642 @@ theorem inorder_counts_aux (t : Tree) : t.noEmpty = true →
       (fun k hk' => (ih k hk' (hk k hk')).2)]
     rw [leafNums_node, subtrees, subtreesL_eq, List.length_flatMap, List.countP_cons, List.countP_flatMap]
     simp [isLeaf, Function.comp_def]
+
+/-! ### more on `All2` -/
+
+theorem All2.reverse {α β} {R : α → β → Prop} : ∀ {l1 l2}, All2 R l1 l2 → All2 R l1.reverse l2.reverse
+  | _, _, .nil => .nil
+  | _, _, .cons hab t => by
+    simp only [List.reverse_cons]
+    exact All2.append (All2.reverse t) (.cons hab .nil)
+
+theorem All2.length_eq {α β} {R : α → β → Prop} : ∀ {l1 l2}, All2 R l1 l2 → l1.length = l2.length
+  | _, _, .nil => rfl
+  | _, _, .cons _ t => by simp [All2.length_eq t]
+
+theorem All2.take {α β} {R : α → β → Prop} : ∀ (n : Nat) {l1 l2}, All2 R l1 l2 → All2 R (l1.take n) (l2.take n)
+  | 0, _, _, _ => by simp only [List.take_zero]; exact .nil
+  | _ + 1, _, _, .nil => .nil
+  | n + 1, _, _, .cons hab t => by simp only [List.take_succ_cons]; exact .cons hab (All2.take n t)
+
+theorem All2.drop {α β} {R : α → β → Prop} : ∀ (n : Nat) {l1 l2}, All2 R l1 l2 → All2 R (l1.drop n) (l2.drop n)
+  | 0, _, _, h => by simpa using h
+  | _ + 1, _, _, .nil => .nil
+  | n + 1, _, _, .cons _ t => by simp only [List.drop_succ_cons]; exact All2.drop n t
+
+theorem All2.cons_left {α β} {R : α → β → Prop} {a : α} {as : List α} {l2 : List β} (h : All2 R (a :: as) l2) :
+    ∃ b bs, l2 = b :: bs ∧ R a b ∧ All2 R as bs := by
+  cases h with
+  | cons hab t => exact ⟨_, _, rfl, hab, t⟩
+
+theorem All2.nil_left {α β} {R : α → β → Prop} {l2 : List β} (h : All2 R [] l2) : l2 = [] := by
+  cases h; rfl
+
+theorem All2.insertBy {α β} {R : α → β → Prop} (ka : α → Nat) (kb : β → Nat) (hk : ∀ a b, R a b → kb b = ka a)
+    {a : α} {b : β} (hab : R a b) : ∀ {l1 l2}, All2 R l1 l2 → All2 R (insertBy ka a l1) (insertBy kb b l2)
+  | _, _, .nil => .cons hab .nil
+  | _, _, .cons (a := a') (b := b') h' t => by
+    simp only [TT.insertBy, hk _ _ hab, hk _ _ h']
+    split
+    · exact .cons hab (.cons h' t)
+    · exact .cons h' (All2.insertBy ka kb hk hab t)
+
+theorem All2.sortBy {α β} {R : α → β → Prop} (ka : α → Nat) (kb : β → Nat) (hk : ∀ a b, R a b → kb b = ka a) :
+    ∀ {l1 l2}, All2 R l1 l2 → All2 R (sortBy ka l1) (sortBy kb l2)
+  | _, _, .nil => .nil
+  | _, _, .cons hab t => All2.insertBy ka kb hk hab (All2.sortBy ka kb hk t)
+
+theorem All2.map_left {α β γ} {R : α → β → Prop} {S : γ → β → Prop} (g : α → γ) (h : ∀ a b, R a b → S (g a) b) :
+    ∀ {l1 l2}, All2 R l1 l2 → All2 S (l1.map g) l2
+  | _, _, .nil => .nil
+  | _, _, .cons hab t => .cons (h _ _ hab) (All2.map_left g h t)
+
+/-- rebuilding a constituent from rebuilt children given in ANY order -/
+theorem Rel_mkNode_perm (f : Fields) (ks cs rs : List Tree) (hp : cs.Perm ks) (hd : (ks.map leftmost).Nodup)
+    (h : All2 Rel cs rs) : Rel (node f ks) (mkNode f.label rs) := by
+  have h1 : All2 Rel (sortBy leftmost cs) (sortBy leftmost rs) :=
+    All2.sortBy leftmost leftmost (fun _ _ h => h.leftmost) h
+  rw [sortBy_perm_eq leftmost cs ks hp ((hp.map leftmost).symm.nodup hd)] at h1
+  have h2 := Rel_mkNode f ks _ h1
+  refine ⟨?_, ?_⟩
+  · have : sortKids (mkNode f.label rs) = sortKids (mkNode f.label (sortBy leftmost rs)) := by
+      rw [mkNode, mkNode, sortKids_node, sortKids_node,
+        sortBy_of_sorted leftmost (sortBy leftmost rs) (sortBy_sorted leftmost rs)]
+    rw [this]; exact h2.1
+  · refine List.Perm.trans ?_ h2.2
+    rw [mkNode, mkNode, leafNums_node, leafNums_node]
+    exact (sortBy_perm leftmost rs).symm.flatMap_right leafNums
+
+/-! ### paths into a tree -/
+
+theorem parentP_eq_some {q p : Path} (h : parentP q = some p) : ∃ i, q = p ++ [i] := by
+  unfold parentP at h
+  split at h
+  · cases h
+  · rename_i hne
+    cases h
+    have hq : q ≠ [] := by intro h'; simp [h'] at hne
+    exact ⟨q.getLast hq, (List.dropLast_concat_getLast hq).symm⟩
+
+theorem parentP_concat (p : Path) (i : Nat) : parentP (p ++ [i]) = some p := by
+  simp [parentP]
+
+theorem parentP_nil : parentP [] = none := rfl
+
+theorem get?_concat (t : Tree) (p : Path) (i : Nat) :
+    get? t (p ++ [i]) = (get? t p).bind (fun s => s.kids[i]?) := by
+  rw [get?_append]
+  cases get? t p with
+  | none => rfl
+  | some s =>
+    cases s with
+    | leaf n f => simp [get?, kids]
+    | node f ks =>
+      simp only [Option.bind_some, get?, kids]
+      cases ks[i]? <;> simp
+
+/-- the node at `p ++ [i]` is the `i`-th stored child of the constituent at `p` -/
+theorem get?_concat_some {t : Tree} {p : Path} {i : Nat} {s : Tree} (h : get? t (p ++ [i]) = some s) :
+    ∃ f ks, get? t p = some (node f ks) ∧ ks[i]? = some s := by
+  rw [get?_concat] at h
+  cases hp : get? t p with
+  | none => simp [hp] at h
+  | some u =>
+    cases u with
+    | leaf n f => simp [hp, kids] at h
+    | node f ks => simp only [hp, Option.bind_some, kids] at h; exact ⟨f, ks, rfl, h⟩
+
+theorem leafNums_sublist_get? : ∀ (p : Path) (t s : Tree), get? t p = some s → s.leafNums.Sublist t.leafNums
+  | [], t, s, h => by simp only [get?, Option.some.injEq] at h; subst h; exact List.Sublist.refl _
+  | i :: p, .leaf _ _, s, h => by simp [get?] at h
+  | i :: p, .node f ks, s, h => by
+    simp only [get?] at h
+    cases hk : ks[i]? with
+    | none => simp [hk] at h
+    | some k =>
+      simp only [hk] at h
+      exact (leafNums_sublist_get? p k s h).trans (leafNums_sublist_of_mem f ks k (List.mem_of_getElem? hk))
+
+theorem maxArity_get? (n : Nat) : ∀ (p : Path) (t s : Tree), maxArity t ≤ n → get? t p = some s → maxArity s ≤ n
+  | [], t, s, hm, h => by simp only [get?, Option.some.injEq] at h; subst h; exact hm
+  | i :: p, .leaf _ _, s, _, h => by simp [get?] at h
+  | i :: p, .node f ks, s, hm, h => by
+    simp only [get?] at h
+    cases hk : ks[i]? with
+    | none => simp [hk] at h
+    | some k =>
+      simp only [hk] at h
+      exact maxArity_get? n p k s ((maxArity_node_le hm).2 k (List.mem_of_getElem? hk)) h
+
+theorem mem_subtrees_get? : ∀ (p : Path) (t s : Tree), get? t p = some s → s ∈ subtrees t
+  | [], t, s, h => by simp only [get?, Option.some.injEq] at h; subst h; exact self_mem_subtrees _
+  | i :: p, .leaf _ _, s, h => by simp [get?] at h
+  | i :: p, .node f ks, s, h => by
+    simp only [get?] at h
+    cases hk : ks[i]? with
+    | none => simp [hk] at h
+    | some k =>
+      simp only [hk] at h
+      exact (mem_subtrees_node f ks s).2 (Or.inr ⟨k, List.mem_of_getElem? hk, mem_subtrees_get? p k s h⟩)
+
+mutual
+theorem height_le_size : (t : Tree) → height t ≤ size t
+  | .leaf _ _ => by simp [height, size]
+  | .node _ ks => by
+    have := heightL_le_sizeL ks
+    show 1 + heightL ks ≤ 1 + sizeL ks
+    omega
+theorem heightL_le_sizeL : (ts : List Tree) → heightL ts ≤ sizeL ts
+  | [] => by simp [heightL, sizeL]
+  | t :: ts => by
+    have h1 := height_le_size t
+    have h2 := heightL_le_sizeL ts
+    show max (height t) (heightL ts) ≤ size t + sizeL ts
+    omega
+end
+
+theorem length_le_size_of_get? (t s : Tree) (p : Path) (h : get? t p = some s) : p.length ≤ size t := by
+  have h1 := height_get?_le p t s h
+  have h2 := height_le_size t
+  omega
+
+
+/-! ### gap automaton: every emitted transition is sound -/
+
+/-- proves `Perm` goals between `flatMap`s of rearranged lists by counting -/
+macro "perm_count" : tactic => `(tactic| (
+  rw [List.perm_iff_count]; intro a
+  simp only [List.count_flatMap, List.map_append, List.sum_append, List.map_reverse, List.sum_reverse,
+    List.map_cons, List.sum_cons, List.map_nil, List.sum_nil, List.count_append, List.count_cons, List.count_nil,
+    Function.comp_apply]
+  try omega))
+
+structure GapHyp (t : Tree) : Prop where
+  ne : t.noEmpty = true
+  nd : t.leafNums.Nodup
+  ar : maxArity t ≤ 2
+
+/-- the rebuilt item `r` stands for the node of `t` at storage path `p` -/
+def IR (t : Tree) (p : Path) (r : Tree) : Prop := ∃ s, t.get? p = some s ∧ Rel s r
+
+/-- lock-step relation between an oracle configuration (paths) and a replay configuration (rebuilt trees) -/
+structure SInv (t : Tree) (s d b : List Path) (C : GCfg) : Prop where
+  hs : All2 (IR t) s C.s
+  hd : All2 (IR t) d C.d
+  hb : All2 (IR t) b C.b
+  cov : ((C.s ++ C.d ++ C.b).flatMap leafNums).Perm t.leafNums
+
+theorem sound_shift {t : Tree} {s d bs : List Path} {x : Path} {C : GCfg} (h : SInv t s d (x :: bs) C) :
+    ∃ C1, gStep C .shift = some C1 ∧ SInv t (d.reverse ++ s) [x] bs C1 := by
+  obtain ⟨X, Bs, hB, hx, hbs⟩ := h.hb.cons_left
+  refine ⟨{ s := C.d.reverse ++ C.s, d := [X], b := Bs }, by simp [gStep, hB],
+    ⟨h.hd.reverse.append h.hs, .cons hx .nil, hbs, ?_⟩⟩
+  refine List.Perm.trans ?_ h.cov
+  rw [hB]
+  perm_count
+
+theorem sound_gap1 {t : Tree} {ss d b : List Path} {s0 : Path} {C : GCfg} (h : SInv t (s0 :: ss) d b C)
+    (hd : d ≠ []) : ∃ C1, gStep C .gap = some C1 ∧ SInv t ss (d ++ [s0]) b C1 := by
+  obtain ⟨X, Ss, hS, hx, hss⟩ := h.hs.cons_left
+  have hne : C.d.isEmpty = false := by
+    have := h.hd.length_eq
+    cases hc : C.d with
+    | nil => rw [hc] at this; simp at this; exact absurd this hd
+    | cons _ _ => rfl
+  refine ⟨{ C with s := Ss, d := C.d ++ [X] }, by simp [gStep, hS, hne],
+    ⟨hss, h.hd.append (.cons hx .nil), h.hb, ?_⟩⟩
+  refine List.Perm.trans ?_ h.cov
+  rw [hS]
+  perm_count
+
+theorem sound_gaps {t : Tree} {b : List Path} : ∀ (i : Nat) {s d : List Path} {C : GCfg}, SInv t s d b C →
+    i ≤ s.length → d ≠ [] →
+    ∃ C1, (List.replicate i Action.gap).foldlM gStep C = some C1 ∧ SInv t (s.drop i) (d ++ s.take i) b C1
+  | 0, s, d, C, h, _, _ => ⟨C, rfl, by simpa using h⟩
+  | i + 1, [], d, C, h, hi, _ => by simp at hi
+  | i + 1, s0 :: ss, d, C, h, hi, hd => by
+    obtain ⟨C1, h1, hinv1⟩ := sound_gap1 h hd
+    obtain ⟨C2, h2, hinv2⟩ := sound_gaps i hinv1 (by simpa using hi) (by simp)
+    refine ⟨C2, ?_, ?_⟩
+    · rw [List.replicate_succ, foldlM_cons_of h1, h2]
+    · simpa using hinv2
+
+theorem two_kids {ks : List Tree} {i j : Nat} {a b : Tree} (hl : ks.length ≤ 2) (hi : ks[i]? = some a)
+    (hj : ks[j]? = some b) (hij : i ≠ j) : [a, b].Perm ks := by
+  obtain ⟨hi', rfl⟩ := List.getElem?_eq_some_iff.1 hi
+  obtain ⟨hj', rfl⟩ := List.getElem?_eq_some_iff.1 hj
+  match ks, hl, hi', hj' with
+  | [x, y], _, hi', hj' =>
+    have : (i = 0 ∧ j = 1) ∨ (i = 1 ∧ j = 0) := by simp at hi' hj'; omega
+    rcases this with ⟨rfl, rfl⟩ | ⟨rfl, rfl⟩
+    · exact List.Perm.refl _
+    · exact List.Perm.swap _ _ _
+  | [x], _, hi', hj' => simp at hi' hj'; omega
+
+theorem one_kid {ks : List Tree} {i : Nat} {a : Tree} (hl : ks.length = 1) (hi : ks[i]? = some a) : ks = [a] := by
+  obtain ⟨hi', rfl⟩ := List.getElem?_eq_some_iff.1 hi
+  match ks, hl, hi' with
+  | [x], _, hi' =>
+    have : i = 0 := by simp at hi'; omega
+    subst this; rfl
+
+theorem leafNums_mkNode (l : Str) (rs : List Tree) : (mkNode l rs).leafNums = rs.flatMap leafNums :=
+  leafNums_node _ _
+
+theorem leafNums_clearHead (x : Tree) : (clearHead x).leafNums = x.leafNums := leafNums_setFields _ _
+theorem leafNums_withHead (h : Bool) (x : Tree) : (withHead h x).leafNums = x.leafNums := leafNums_setFields _ _
+
+/-- facts about the constituent at a valid path of a tree satisfying `GapHyp` -/
+theorem node_facts {t : Tree} (H : GapHyp t) {p : Path} {f : Fields} {ks : List Tree}
+    (hp : get? t p = some (node f ks)) :
+    ks.length ≤ 2 ∧ (ks.map leftmost).Nodup ∧ (∀ k ∈ ks, k.leafNums ≠ []) ∧ (ks.flatMap leafNums).Nodup := by
+  have hne := noEmpty_get? p t _ H.ne hp
+  have hnd : (ks.flatMap leafNums).Nodup := by
+    have := (leafNums_sublist_get? p t _ hp).nodup H.nd
+    rwa [leafNums_node] at this
+  have hk : ∀ k ∈ ks, k.leafNums ≠ [] := fun k hk =>
+    noEmpty_leafNums_ne_nil k (noEmpty_of_mem_kids f ks k hne hk)
+  exact ⟨(maxArity_node_le (maxArity_get? 2 p t _ H.ar hp)).1, map_leftmost_nodup ks hk hnd, hk, hnd⟩
+
+theorem sound_reduce {t : Tree} (H : GapHyp t) {s0 d0 p : Path} {ss ds b : List Path} {C : GCfg} {h : Bool}
+    (hinv : SInv t (s0 :: ss) (d0 :: ds) b C) (hps : parentP s0 = some p) (hpd : parentP d0 = some p)
+    (hh : headAt t s0 = some h) :
+    ∃ C1, gStep C (.r h (labelAt t p)) = some C1 ∧ SInv t (ds.reverse ++ ss) [p] b C1 := by
+  obtain ⟨X, Ss, hS, hX, hSs⟩ := hinv.hs.cons_left
+  obtain ⟨Y, Ds, hD, hY, hDs⟩ := hinv.hd.cons_left
+  obtain ⟨i, rfl⟩ := parentP_eq_some hps
+  obtain ⟨j, rfl⟩ := parentP_eq_some hpd
+  obtain ⟨a, ha, hRa⟩ := hX
+  obtain ⟨b', hb', hRb⟩ := hY
+  obtain ⟨f, ks, hp, hki⟩ := get?_concat_some ha
+  obtain ⟨f', ks', hp', hkj⟩ := get?_concat_some hb'
+  rw [hp] at hp'
+  cases hp'
+  obtain ⟨hlen, hlm, hkne, hknd⟩ := node_facts H hp
+  have hcov := hinv.cov
+  rw [hS, hD] at hcov
+  have hij : i ≠ j := by
+    rintro rfl
+    rw [hki] at hkj
+    cases hkj
+    have hane : a.leafNums ≠ [] := hkne a (List.mem_of_getElem? hki)
+    obtain ⟨n, hn⟩ := List.exists_mem_of_ne_nil _ hane
+    have hnX : 0 < X.leafNums.count n := List.count_pos_iff.2 (hRa.2.symm.subset hn)
+    have hnY : 0 < Y.leafNums.count n := List.count_pos_iff.2 (hRb.2.symm.subset hn)
+    have h1 := List.nodup_iff_count.1 (hcov.symm.nodup H.nd) n
+    simp only [List.count_flatMap, List.map_append, List.sum_append, List.map_cons, List.sum_cons,
+      Function.comp_apply] at h1
+    omega
+  have hhead : a.fields.head = some h := by simpa [headAt, ha] using hh
+  have hlab : labelAt t p = f.label := by simp [labelAt, hp, fields]
+  refine ⟨{ s := Ds.reverse ++ Ss, d := [mkNode (labelAt t p) [withHead h X, clearHead Y]], b := C.b },
+    by simp [gStep, hS, hD], ⟨hDs.reverse.append hSs, .cons ?_ .nil, hinv.hb, ?_⟩⟩
+  · rw [hlab]
+    exact ⟨node f ks, hp, Rel_mkNode_perm f ks [a, b'] _ (two_kids hlen hki hkj hij) hlm
+      (.cons (hRa.withHead h hhead) (.cons hRb.clearHead .nil))⟩
+  · refine List.Perm.trans ?_ hcov
+    simp only [List.flatMap_append, List.flatMap_cons, List.flatMap_nil, leafNums_mkNode, leafNums_withHead,
+      leafNums_clearHead, List.append_nil]
+    perm_count
+
+theorem sound_unary {t : Tree} (H : GapHyp t) {d0 p : Path} {s ds b : List Path} {C : GCfg}
+    (hinv : SInv t s (d0 :: ds) b C) (hpd : parentP d0 = some p) (har : arityAt t p = 1) :
+    ∃ C1, gStep C (.unary (labelAt t p)) = some C1 ∧ SInv t s (p :: ds) b C1 := by
+  obtain ⟨Y, Ds, hD, hY, hDs⟩ := hinv.hd.cons_left
+  obtain ⟨j, rfl⟩ := parentP_eq_some hpd
+  obtain ⟨b', hb', hRb⟩ := hY
+  obtain ⟨f, ks, hp, hkj⟩ := get?_concat_some hb'
+  obtain ⟨_, hlm, _, _⟩ := node_facts H hp
+  have hl1 : ks.length = 1 := by simpa [arityAt, hp, kids] using har
+  have hks := one_kid hl1 hkj
+  have hlab : labelAt t p = f.label := by simp [labelAt, hp, fields]
+  have hcov := hinv.cov
+  rw [hD] at hcov
+  refine ⟨{ C with d := mkNode (labelAt t p) [clearHead Y] :: Ds }, by simp [gStep, hD],
+    ⟨hinv.hs, .cons ?_ hDs, hinv.hb, ?_⟩⟩
+  · rw [hlab]
+    refine ⟨node f ks, hp, Rel_mkNode_perm f ks [b'] _ (by rw [hks]) hlm (.cons hRb.clearHead .nil)⟩
+  · refine List.Perm.trans ?_ hcov
+    simp only [List.flatMap_append, List.flatMap_cons, List.flatMap_nil, leafNums_mkNode,
+      leafNums_clearHead, List.append_nil]
+    exact List.Perm.refl _
+
+
+/-! ### the oracle's loop -/
+
+theorem shiftStep_ok {c c1 : GapCfg} (h : gapStep.shiftStep c = .ok c1) :
+    ∃ x bs, c.b = x :: bs ∧ c1 = { c with s := c.d.reverse ++ c.s, d := [x], b := bs, out := .shift :: c.out } := by
+  unfold gapStep.shiftStep at h
+  split at h
+  · rename_i x bs hb
+    cases h
+    exact ⟨x, bs, hb, rfl⟩
+  · cases h
+
+/-- the three things one iteration can do -/
+theorem gapStep_cases {t : Tree} {c c1 : GapCfg} (h : gapStep t c = .ok c1) :
+    (∃ x bs, c.b = x :: bs ∧
+      c1 = { c with s := c.d.reverse ++ c.s, d := [x], b := bs, out := .shift :: c.out }) ∨
+    (∃ s0 ss d0 ds hd hd' p, c.s = s0 :: ss ∧ c.d = d0 :: ds ∧ parentP d0 = some p ∧ parentP s0 = some p ∧
+      headAt t s0 = some hd ∧ headAt t d0 = some hd' ∧
+      c1 = { c with s := ds.reverse ++ ss, d := [p], out := .r hd (labelAt t p) :: c.out }) ∨
+    (∃ i, i ≤ c.s.length ∧ c.d ≠ [] ∧
+      c1 = { c with s := c.s.drop i, d := c.d ++ c.s.take i, out := List.replicate i .gap ++ c.out }) := by
+  unfold gapStep at h
+  split at h
+  · rename_i s0 ss d0 ds hs hd
+    split at h
+    · rename_i hpar
+      split at h
+      · rename_i hd1 hd2 p h1 h2 h3
+        cases h
+        refine Or.inr (Or.inl ⟨s0, ss, d0, ds, hd1, hd2, p, hs, hd, ?_, h3, h1, h2, rfl⟩)
+        rw [← h3]; exact eq_of_beq hpar
+      · cases h
+    · split at h
+      · rename_i i hi
+        cases h
+        have hlt := (List.findIdx?_eq_some_iff_findIdx_eq.1 hi).1
+        refine Or.inr (Or.inr ⟨i, ?_, ?_, ?_⟩)
+        · rw [hs]; exact Nat.le_of_lt hlt
+        · rw [hd]; simp
+        · rw [hs, hd]
+      · exact Or.inl (shiftStep_ok h)
+  · exact Or.inl (shiftStep_ok h)
+  · exact Or.inl (shiftStep_ok h)
+
+theorem gapStep_sound {t : Tree} (H : GapHyp t) {c c1 : GapCfg} {C : GCfg} (h : gapStep t c = .ok c1)
+    (hinv : SInv t c.s c.d c.b C) :
+    ∃ (new : List Action) (C1 : GCfg), c1.out = new.reverse ++ c.out ∧ new.foldlM gStep C = some C1 ∧ SInv t c1.s c1.d c1.b C1 := by
+  rcases gapStep_cases h with ⟨x, bs, hb, rfl⟩ | ⟨s0, ss, d0, ds, hd, hd', p, hs, hdq, hpd, hps, hh, _, rfl⟩ |
+      ⟨i, hi, hdne, rfl⟩
+  · rw [hb] at hinv
+    obtain ⟨C1, h1, hinv1⟩ := sound_shift hinv
+    exact ⟨[.shift], C1, rfl, by rw [foldlM_cons_of h1]; rfl, hinv1⟩
+  · rw [hs, hdq] at hinv
+    obtain ⟨C1, h1, hinv1⟩ := sound_reduce H hinv hps hpd hh
+    exact ⟨[.r hd (labelAt t p)], C1, rfl, by rw [foldlM_cons_of h1]; rfl, hinv1⟩
+  · obtain ⟨C1, h1, hinv1⟩ := sound_gaps i hinv hi hdne
+    exact ⟨List.replicate i .gap, C1, by simp, h1, hinv1⟩
+
+theorem unaryClimb_sound {t : Tree} (H : GapHyp t) : ∀ (fuel : Nat) (c : GapCfg) (C : GCfg), SInv t c.s c.d c.b C →
+    ∃ (new : List Action) (C1 : GCfg), (unaryClimb t fuel c).out = new.reverse ++ c.out ∧ new.foldlM gStep C = some C1 ∧
+      SInv t (unaryClimb t fuel c).s (unaryClimb t fuel c).d (unaryClimb t fuel c).b C1
+  | 0, c, C, hinv => ⟨[], C, rfl, rfl, hinv⟩
+  | fuel + 1, c, C, hinv => by
+    unfold unaryClimb
+    split
+    · rename_i d0 ds hd
+      split
+      · rename_i p hp
+        split
+        · rename_i har
+          rw [hd] at hinv
+          obtain ⟨C1, h1, hinv1⟩ := sound_unary H hinv hp (eq_of_beq har)
+          obtain ⟨new, C2, hout, h2, hinv2⟩ := unaryClimb_sound H fuel
+            { c with d := p :: ds, out := .unary (labelAt t p) :: c.out } C1 hinv1
+          refine ⟨.unary (labelAt t p) :: new, C2, ?_, ?_, hinv2⟩
+          · rw [hout]; simp
+          · rw [foldlM_cons_of h1, h2]
+        · exact ⟨[], C, rfl, rfl, hinv⟩
+      · exact ⟨[], C, rfl, rfl, hinv⟩
+    · exact ⟨[], C, rfl, rfl, hinv⟩
+
+
+/-- the deque top has no unary parent left -/
+def Climbed (t : Tree) (d0 : Path) : Prop := ∀ p, parentP d0 = some p → arityAt t p ≠ 1
+
+/-- what the unary loop does to the configuration: only the deque top moves (upwards), and with enough
+    fuel it ends below a non-unary parent (or at the root) -/
+theorem unaryClimb_spec (t : Tree) : ∀ (fuel : Nat) (c : GapCfg),
+    (unaryClimb t fuel c).s = c.s ∧ (unaryClimb t fuel c).b = c.b ∧
+    (c.d = [] → (unaryClimb t fuel c).d = []) ∧
+    (∀ d0 ds, c.d = d0 :: ds → ∃ d0', (unaryClimb t fuel c).d = d0' :: ds ∧ d0'.length ≤ d0.length ∧
+      (d0.length < fuel → Climbed t d0') ∧ (Climbed t d0 → unaryClimb t fuel c = c))
+  | 0, c => ⟨rfl, rfl, fun h => h, fun d0 ds h => ⟨d0, h, Nat.le_refl _, fun h' => absurd h' (Nat.not_lt_zero _),
+      fun _ => rfl⟩⟩
+  | fuel + 1, c => by
+    unfold unaryClimb
+    split
+    · rename_i d0 ds hd
+      split
+      · rename_i p hp
+        split
+        · rename_i har
+          obtain ⟨h1, h2, _, h4⟩ := unaryClimb_spec t fuel
+            { c with d := p :: ds, out := .unary (labelAt t p) :: c.out }
+          refine ⟨h1, h2, (fun h => by rw [hd] at h; cases h), ?_⟩
+          intro d0' ds' hd'
+          rw [hd] at hd'
+          cases hd'
+          obtain ⟨e, he, hlen, hcl, _⟩ := h4 p ds rfl
+          obtain ⟨i, rfl⟩ := parentP_eq_some hp
+          refine ⟨e, he, by simp at hlen ⊢; omega, fun hf => hcl (by simp at hf; omega), ?_⟩
+          intro hc
+          exact absurd (eq_of_beq har) (hc p hp)
+        · rename_i har
+          refine ⟨rfl, rfl, (fun h => by rw [hd] at h; cases h), ?_⟩
+          intro d0' ds' hd'
+          rw [hd] at hd'
+          cases hd'
+          refine ⟨d0, hd, Nat.le_refl _, fun _ q hq => ?_, fun _ => rfl⟩
+          rw [hp] at hq
+          cases hq
+          intro h1
+          exact har (by simp [h1])
+      · rename_i hp
+        refine ⟨rfl, rfl, (fun h => by rw [hd] at h; cases h), ?_⟩
+        intro d0' ds' hd'
+        rw [hd] at hd'
+        cases hd'
+        exact ⟨d0, hd, Nat.le_refl _, (fun _ q hq => by rw [hp] at hq; cases hq), fun _ => rfl⟩
+    · rename_i hd
+      refine ⟨rfl, rfl, fun h => h, ?_⟩
+      intro d0 ds hd'
+      rw [hd] at hd'
+      cases hd'
+
+theorem flatMap_length_ge {α β} (F : α → List β) : ∀ (ks : List α) (i : Nat) (s : α), ks[i]? = some s →
+    (∀ k ∈ ks, 1 ≤ (F k).length) → (F s).length + (ks.length - 1) ≤ (ks.flatMap F).length
+  | [], i, s, h, _ => by simp at h
+  | k :: ks, 0, s, h, hk => by
+    simp only [List.getElem?_cons_zero, Option.some.injEq] at h
+    subst h
+    have : ks.length ≤ (ks.flatMap F).length := by
+      induction ks with
+      | nil => simp
+      | cons x xs ih =>
+        have h1 := hk x (by simp)
+        have := ih (fun k' hk' => hk k' (by
+          rcases List.mem_cons.1 hk' with rfl | h
+          · simp
+          · simp [h]))
+        simp only [List.flatMap_cons, List.length_append, List.length_cons]
+        omega
+    simp only [List.flatMap_cons, List.length_append, List.length_cons]
+    omega
+  | k :: ks, i + 1, s, h, hk => by
+    simp only [List.getElem?_cons_succ] at h
+    have ih := flatMap_length_ge F ks i s h (fun k' hk' => hk k' (List.mem_cons_of_mem _ hk'))
+    have h1 := hk k List.mem_cons_self
+    have hpos : 0 < ks.length := by
+      have := (List.getElem?_eq_some_iff.1 h).1; omega
+    simp only [List.flatMap_cons, List.length_append, List.length_cons]
+    omega
+
+/-- an item that covers every token and has no unary parent is the root -/
+theorem final_root {t : Tree} (H : GapHyp t) {p : Path} {s : Tree} (hp : get? t p = some s)
+    (hlen : s.leafNums.length = t.leafNums.length) (hc : Climbed t p) : p = [] := by
+  rcases List.eq_nil_or_concat p with rfl | ⟨q, i, rfl⟩
+  · rfl
+  · exfalso
+    rw [List.concat_eq_append] at hp hc
+    obtain ⟨f, ks, hq, hki⟩ := get?_concat_some hp
+    obtain ⟨_, _, hkne, _⟩ := node_facts H hq
+    have h1 := flatMap_length_ge leafNums ks i s hki (fun k hk => by
+      have := hkne k hk
+      cases hl : k.leafNums with
+      | nil => exact absurd hl this
+      | cons _ _ => simp)
+    have h2 := (leafNums_sublist_get? q t _ hq).length_le
+    rw [leafNums_node] at h2
+    have hpos := (List.getElem?_eq_some_iff.1 hki).1
+    have : ks.length = 1 := by omega
+    exact hc q (parentP_concat q i) (by simp [arityAt, hq, kids, this])
+
+
+theorem gapLoop_sound {t : Tree} (H : GapHyp t) : ∀ (fuel : Nat) (c : GapCfg) (C : GCfg) (acts : List Action),
+    gapLoop t fuel c = .ok acts → SInv t c.s c.d c.b C →
+    ∃ (new : List Action) (x : Tree), acts = c.out.reverse ++ new ∧
+      new.foldlM gStep C = some { s := [], d := [x], b := [] } ∧ Rel t x
+  | 0, _, _, _, h, _ => by simp [gapLoop] at h
+  | fuel + 1, c, C, acts, h, hinv => by
+    unfold gapLoop at h
+    split at h
+    · cases h
+    · rename_i c1 hstep
+      obtain ⟨new1, C1, hout1, hrun1, hinv1⟩ := gapStep_sound H hstep hinv
+      obtain ⟨new2, C2, hout2, hrun2, hinv2⟩ := unaryClimb_sound H (t.size + 1) c1 C1 hinv1
+      have hrun : (new1 ++ new2).foldlM gStep C = some C2 := by rw [foldlM_append_of hrun1, hrun2]
+      have hout : (unaryClimb t (t.size + 1) c1).out.reverse = c.out.reverse ++ (new1 ++ new2) := by
+        rw [hout2, hout1]; simp
+      simp only at h
+      split at h
+      · rename_i hterm
+        cases h
+        simp only [Bool.and_eq_true, List.isEmpty_iff, beq_iff_eq] at hterm
+        obtain ⟨⟨hs, hb⟩, hd⟩ := hterm
+        obtain ⟨p, hdp⟩ : ∃ p, (unaryClimb t (t.size + 1) c1).d = [p] := by
+          match (unaryClimb t (t.size + 1) c1).d, hd with
+          | [p], _ => exact ⟨p, rfl⟩
+        have hS := hinv2.hs; have hD := hinv2.hd; have hB := hinv2.hb; have hcov := hinv2.cov
+        rw [hs] at hS; rw [hb] at hB; rw [hdp] at hD
+        have hS' := hS.nil_left
+        have hB' := hB.nil_left
+        obtain ⟨x, xs, hD', hx, hxs⟩ := hD.cons_left
+        have hxs' := hxs.nil_left
+        subst hxs'
+        have hC2 : C2 = { s := [], d := [x], b := [] } := by
+          cases C2; simp only at hS' hB' hD'; subst hS' hB' hD'; rfl
+        refine ⟨new1 ++ new2, x, hout, by rw [hrun, hC2], ?_⟩
+        rw [hS', hB', hD'] at hcov
+        simp only [List.nil_append, List.append_nil, List.flatMap_cons, List.flatMap_nil] at hcov
+        obtain ⟨s, hp, hrel⟩ := hx
+        -- the deque top has been climbed: it is the root
+        have hcl : Climbed t p := by
+          obtain ⟨_, _, h3, h4⟩ := unaryClimb_spec t (t.size + 1) c1
+          cases hd1 : c1.d with
+          | nil => rw [h3 hd1] at hdp; cases hdp
+          | cons d0 ds =>
+            obtain ⟨d0', hd0', _, hcl, _⟩ := h4 d0 ds hd1
+            rw [hd0'] at hdp
+            cases hdp
+            apply hcl
+            have hv : ∃ s0, get? t d0 = some s0 := by
+              have := hinv1.hd
+              rw [hd1] at this
+              obtain ⟨_, _, _, ⟨s0, h0, _⟩, _⟩ := this.cons_left
+              exact ⟨s0, h0⟩
+            obtain ⟨s0, h0⟩ := hv
+            have := length_le_size_of_get? t s0 d0 h0
+            omega
+        have hroot := final_root H hp ((hrel.2.symm.trans hcov).length_eq) hcl
+        subst hroot
+        simp only [get?, Option.some.injEq] at hp
+        subst hp
+        exact hrel
+      · obtain ⟨new3, x, hacts, hrun3, hrel⟩ := gapLoop_sound H fuel _ C2 acts h hinv2
+        refine ⟨new1 ++ new2 ++ new3, x, ?_, ?_, hrel⟩
+        · rw [hacts, hout]; simp
+        · rw [foldlM_append_of hrun, hrun3]
+
+/-! ### the initial configuration -/
+
+def isTok (t : Tree) (p : Path) : Bool := match t.get? p with | some (leaf _ _) => true | _ => false
+
+theorem terminalPaths_eq (t : Tree) :
+    terminalPaths t = sortBy (fun p => ((t.get? p).map num).getD 0) ((paths t).filter (isTok t)) := rfl
+
+mutual
+theorem leafPaths_all2 : (t : Tree) →
+    All2 (fun p l => get? t p = some l ∧ l.isLeaf = true) ((paths t).filter (isTok t)) (leaves t)
+  | .leaf n f => by
+    simp only [paths, leaves, List.filter, isTok, get?]
+    exact .cons ⟨rfl, rfl⟩ .nil
+  | .node f ks => by
+    have h0 : isTok (node f ks) [] = false := by simp [isTok, get?]
+    simp only [paths, leaves, List.filter_cons, h0]
+    exact leafPathsL_all2 f ks ks 0 rfl
+theorem leafPathsL_all2 (f : Fields) (full : List Tree) : (ts : List Tree) → (i : Nat) → full.drop i = ts →
+    All2 (fun p l => get? (node f full) p = some l ∧ l.isLeaf = true)
+      ((pathsL ts i).filter (isTok (node f full))) (leavesL ts)
+  | [], _, _ => by simp only [pathsL, leavesL, List.filter_nil]; exact .nil
+  | k :: ts, i, h => by
+    have hk : full[i]? = some k := by
+      have := List.head?_drop (l := full) (i := i)
+      rw [h] at this
+      simpa using this.symm
+    have hts : full.drop (i + 1) = ts := by
+      rw [← List.tail_drop, h]; rfl
+    simp only [pathsL, leavesL, List.filter_append]
+    refine All2.append ?_ (leafPathsL_all2 f full ts (i + 1) hts)
+    rw [List.filter_map]
+    have hfun : (isTok (node f full) ∘ (fun q => i :: q)) = isTok k := by
+      funext q; simp [isTok, get?, hk]
+    rw [hfun]
+    exact All2.map_left (fun q => i :: q) (fun q l h' => ⟨by simp [get?, hk, h'.1], h'.2⟩) (leafPaths_all2 k)
+end
+
+theorem init_all2 (t : Tree) : All2 (IR t) (terminalPaths t) (tokenLeaves t) := by
+  rw [terminalPaths_eq, tokenLeaves_eq]
+  have h1 := All2.sortBy (fun p => ((t.get? p).map num).getD 0) num
+    (fun p l (h : get? t p = some l ∧ l.isLeaf = true) => by simp [h.1]) (leafPaths_all2 t)
+  refine All2.map_right tok ?_ h1
+  intro p l h
+  refine ⟨l, h.1, ?_⟩
+  cases l with
+  | leaf n f => exact Rel_leaf n f
+  | node f ks => simp [isLeaf] at h
+
+theorem init_cov (t : Tree) : ((tokenLeaves t).flatMap leafNums).Perm t.leafNums := by
+  rw [tokenLeaves_eq, List.flatMap_map]
+  have : (fun l => (tok l).leafNums) = fun l => [num l] := by
+    funext l; simp [tok, leafNums_leaf]
+  rw [this]
+  have h2 : (terminals t).flatMap (fun l => [num l]) = yield t := by
+    rw [yield, List.map_eq_flatMap]
+  rw [h2]; exact yield_perm t
+
+/-- partial correctness of the gap oracle: whatever sequence it returns replays to the tree -/
+theorem gap_sound (t : Tree) (H : GapHyp t) (acts : List Action) (h : gapOracle t = .ok acts) :
+    ∃ r, replayGap t acts = some r ∧ agrees t r = true := by
+  unfold gapOracle at h
+  have hinv : SInv t [] [] (terminalPaths t) { s := [], d := [], b := tokenLeaves t } :=
+    ⟨.nil, .nil, init_all2 t, by simpa using init_cov t⟩
+  obtain ⟨new, x, hacts, hrun, hrel⟩ := gapLoop_sound H _ _ _ acts h hinv
+  simp only [List.reverse_nil, List.nil_append] at hacts
+  subst hacts
+  exact ⟨x, by simp only [replayGap, hrun], hrel.agrees⟩
+
 
 end TT.Lemmas.Trans
